@@ -10,7 +10,7 @@ PID = "C15"
 ENGINE = "http"
 LEVEL = "exploration"
 RULE = ("Each case builds an event stream from a spec-level description: 1-6 events with optional id, optional event name, 1-4 "
-        "data lines (at least one non-empty; values with leading spaces, colons, unicode), optional retry (ASCII digits), comment "
+        "data lines (at least one non-empty; values with leading spaces, colons, unicode) or none at all (a block that dispatches nothing), optional retry (ASCII digits), comment "
         "lines, unknown fields, fields without a colon; every line is terminated by a seeded choice of CRLF, LF or CR. The stream "
         "is delivered to hio's real Respondent as the body of a text/event-stream response, close-delimited or chunked with "
         "seeded chunk boundaries, in a seeded read fragmentation (cuts between CR and LF forced often), parse() after every "
@@ -24,7 +24,7 @@ ASSUMPTIONS = ["outside the generated domain (spec and statement silent or ambig
                "non-digit retry, a stream that ends in the middle of an event",
                "an absent id is compared as '' and an absent event name as ''"]
 PROBES = ["cr_only_terminators", "cut_between_cr_and_lf", "cut_right_after_cr", "chunked_delivery", "multi_line_data", "comment_lines",
-          "id_persists_across_events", "retry_set"]
+          "id_persists_across_events", "retry_set", "block_without_data"]
 BOUNDS = dict(quick=dict(events=6), thorough=dict(events=10))
 TIERS = dict(quick=dict(cases=30000, wall=40.0), thorough=dict(cases=2000000, wall=420.0))
 SIM_TIME_UNIT = "reads"
@@ -50,10 +50,12 @@ def gen_stream(tape, maxev):
         if tape.flag("unknown", 1, 6):
             pre.append(tape.pick("unk", ["foo: bar", "datax: 1", "nocolon", "Data: upper"]))
         nd = 1 + tape.geometric("ndata", 3, 1, 2)
+        if tape.flag("no_data", 1, 6):
+            nd = 0        # a block without any data line (named keep-alive, bare id/retry update, or just a blank line): dispatches nothing
         datas = []
         for k in range(nd):
             datas.append(tape.pick("dval", VALS))
-        if all(d == "" for d in datas):
+        if datas and all(d == "" for d in datas):
             datas[0] = "z"
         dl = []
         for d in datas:
@@ -81,6 +83,19 @@ def gen_stream(tape, maxev):
         from ..core import HarnessError
         raise HarnessError("generated stream does not tokenize into the intended lines")
     return lines, bytes(out), terms
+
+
+def _dataless_block(lines):
+    """a non-empty block (between blank lines) that has an event/id/retry line but no data line"""
+    block = []
+    for ln in lines:
+        if ln == "":
+            if block and not any(x.startswith("data") for x in block) and any(x.startswith(("event", "id", "retry")) for x in block):
+                return True
+            block = []
+        else:
+            block.append(ln)
+    return False
 
 
 def run_case(tape, tier):
@@ -159,6 +174,9 @@ def run_case(tape, tier):
         res.probes["cr_only_terminators"] += 1
     between = [c for c in cuts if data[c - 1:c + 1] == b"\r\n" and c > off]
     after_cr = [c for c in cuts if c > off and data[c - 1:c] == b"\r" and data[c:c + 1] != b"\n"]
+    res.faults["short_read"] += len(cuts)
+    res.faults["short_read_between_cr_and_lf"] += len(between)
+    res.faults["short_read_right_after_cr"] += len(after_cr)
     if between:
         res.probes["cut_between_cr_and_lf"] += 1
     if after_cr:
@@ -169,6 +187,8 @@ def run_case(tape, tier):
         res.probes["multi_line_data"] += 1
     if any(l.startswith(":") for l in lines):
         res.probes["comment_lines"] += 1
+    if _dataless_block(lines):
+        res.probes["block_without_data"] += 1
     ids = [e["id"] for e in want]
     if len(ids) >= 2 and ids[-1] != "" and not lines[-2].startswith("id") and any(l.startswith("id") for l in lines):
         res.probes["id_persists_across_events"] += 1
